@@ -200,9 +200,12 @@ class Explorer:
         self.false_assumes = []  # assumptions that evaluated to the constant False (contract bug?)
         self.origins = set()     # where every assumption put on a path condition came from (assumption scan)
 
-    def explore(self, run_one):
-        """run_one(ctx) executes one path, returns an outcome tag (or raises PathEnd)."""
-        work = [[]]
+    def explore(self, run_one, work=None, stop_when=None):
+        """run_one(ctx) executes one path, returns an outcome tag (or raises PathEnd).
+        work: initial list of decision prefixes (default: the empty prefix);
+        stop_when(n_pending) -> True stops early and leaves the pending prefixes in self.pending"""
+        work = [[]] if work is None else list(work)
+        self.pending = []
         obligations = []
         while work:
             prefix = work.pop()
@@ -217,4 +220,7 @@ class Explorer:
                 self.terminals.append((list(ctx.decisions), list(ctx.pc), "cut"))
             obligations.extend(ctx.obligations)
             work.extend(ctx.alternatives)
+            if stop_when is not None and work and stop_when(len(work), self.paths):
+                self.pending = work
+                break
         return obligations
